@@ -24,6 +24,7 @@ will yield same object graph as the original function.
 
 import ast
 import builtins
+import copy
 import dataclasses
 import functools
 import inspect
@@ -529,7 +530,13 @@ def _maybe_as_arg_factory(arg_factory_cls, arg):
   Returns:
     ArgFactory version of a configuration or callable.
   """
-  if isinstance(arg, partial.Partial):
+  if isinstance(arg, config.TaggedValueCls) and 'value' in arg.__arguments__:
+    # `auto_config.with_tags(factory, SomeTag)`: the tags stay on the argument,
+    # the tagged factory is converted like an untagged one.
+    arg = copy.copy(arg)
+    arg.value = _maybe_as_arg_factory(arg_factory_cls, arg.value)
+    return arg
+  elif isinstance(arg, partial.Partial):
     return cast_lib.cast(arg_factory_cls, arg)
   elif callable(arg):
     return arg_factory_cls(arg)
